@@ -229,7 +229,7 @@ theorem rxAckInv_handleMsgs (ms : List Msg) (e : Ep) (hi : RxAckInv e) : RxAckIn
     unfold handleMsgs
     split
     · exact hi
-    · exact ih _ (rxAckInv_handleMsg e m hi)
+    · exact ih _ (rxAckInv_handleMsg _ m (rxAckInv_of_view (e := e) rfl hi))
 
 theorem rxAckInv_recvRaw (e : Ep) (c : Bytes) (hi : RxAckInv e) : RxAckInv (recvRaw e c).1 := by
   unfold recvRaw
